@@ -15,6 +15,14 @@ def parsePairs : List String → List (Nat × Nat)
   | a :: b :: rest => (pN a, pN b) :: parsePairs rest
   | _ => []
 
+/-- `k` groups "m s1 e1 .. (m numbers)" -/
+def hourGroups : Nat → List String → List (List (Nat × Nat))
+  | 0, _ => []
+  | _, [] => []
+  | fuel + 1, xs =>
+    let (g, r) := takeN xs
+    parsePairs g :: hourGroups fuel r
+
 /-- run the day part of the scheduler over a day sequence with the cache, for every rule: days on which it holds -/
 def schedRun (cal : List Nat) (days : List Nat) (rules : List DayRule) : List (List Nat) :=
   let rec go (s : SchedDay) : List Nat → List (List Bool)
@@ -51,6 +59,13 @@ def cmdSched (toks : List String) : Option String :=
           let tr := if rule == "BT" then TimeRule.beforeTrading else TimeRule.minute (pN rule)
           let (bt, fired) := dayFirings cfg (pB dayOk) tr (bars.map pN)
           some (joinSp (sB bt :: fired.map toString))
+      | _ => none
+  | "URANGES" :: stock :: start0 :: rest =>
+      match rest with
+      | k :: xs =>
+        let hs := hourGroups (pN k) xs
+        let rs := universeRanges (pB stock) hs
+        some (joinSp (toString (universeStartMinute (pN start0) hs) :: rs.flatMap (fun r => [toString r.1, toString r.2])))
       | _ => none
   | ["MOPEN", h, m] => some (toString (marketOpen (pI h) (pI m)))
   | ["MCLOSE", h, m] => some (toString (marketClose (pI h) (pI m)))
